@@ -24,6 +24,7 @@ extern "C" int rename(const char *a, const char *b) {
 
 #define private public
 #include "RestartManager.hpp"
+#include "ParameterFile.cpp"
 #undef private
 
 static const uint64_t MAGIC = 0xC0FFEE1234567890ull;
@@ -116,6 +117,23 @@ static Listing listing() {
   return L;
 }
 
+/**
+ * the way every driver makes its manager: from the parameter file (the 5 argument constructor
+ * is still used by `newt`)
+ */
+static RestartManager *manager_from_parameters(const uint64_t nmax) {
+  const std::string pfname = dir + ".param";
+  {
+    std::ofstream pf(pfname);
+    pf << "RestartManager:\n  path: " << dir << "\n  output interval: 3600. s\n"
+       << "  maximum number of backups: " << nmax << "\n  maximum time: 1.e9 s\n";
+  }
+  ParameterFile params(pfname);
+  RestartManager *rm = new RestartManager(params);
+  std::remove(pfname.c_str());
+  return rm;
+}
+
 int main() {
   char tmpl[] = "/tmp/verif_c14_XXXXXX";
   dir = mkdtemp(tmpl);
@@ -131,7 +149,7 @@ int main() {
       restore({});
       delete rm;
       nmax = u64(w[1]);
-      rm = new RestartManager(dir, 3600., nmax, 1.e9, "");
+      rm = manager_from_parameters(nmax);
       kdumps = 0;
       lastv = 0;
       rebooted = false;
@@ -157,7 +175,7 @@ int main() {
       std::cout << "newt " << (r ? 1 : 0) << "\n";
     } else if (w.size() == 1 && w[0] == "reboot" && rm) {
       delete rm;
-      rm = new RestartManager(dir, 3600., nmax, 1.e9, "");
+      rm = manager_from_parameters(nmax);
       rebooted = true;
       fresh_process = true;
       std::cout << "reboot\n";
